@@ -7,17 +7,21 @@ FUNCTIONS = ["bacpypes.constructeddata:ArrayOf(Unsigned).__getitem__", "bacpypes
              "bacpypes.object:Object.ReadProperty[array]", "bacpypes.object:Object.ReadProperty[scalar]", "bacpypes.object:Object.ReadProperty[unknown]",
              "bacpypes.object:Object.WriteProperty[level]", "bacpypes.object:Object.WriteProperty[limit, read-only]", "bacpypes.object:Object.WriteProperty[level, with index]",
              "bacpypes.object:Object.WriteProperty[slots element]", "bacpypes.service.object:read_property_to_any",
-             "bacpypes.service.object:ReadWritePropertyServices.do_ReadPropertyRequest", "bacpypes.service.object:ReadWritePropertyServices.do_WritePropertyRequest"]
+             "bacpypes.service.object:ReadWritePropertyServices.do_ReadPropertyRequest", "bacpypes.service.object:ReadWritePropertyServices.do_WritePropertyRequest",
+             "bacpypes.service.object:read_property_to_result_element",
+             "bacpypes.service.object:ReadWritePropertyMultipleServices.do_ReadPropertyMultipleRequest[one reference]",
+             "bacpypes.service.object:ReadWritePropertyMultipleServices.do_ReadPropertyMultipleRequest[two specifications, wildcard device]"]
 LEMMAS = []
-MIN_OBLIGATIONS = 40
+MIN_OBLIGATIONS = 60
 BOUNDED = None
 ASSUMPTIONS = [
     "the object is a real bacpypes.object.Object instance holding five representative properties (Unsigned, read-only Unsigned, CharacterString, ArrayOf(Unsigned) with 0..3 symbolic elements, ArrayOf(PriorityValue)); Object / Property code is class-generic, the 150+ registered object types differ in their property tables only",
     "in the service units constructeddata.Any is replaced by a stand-in that keeps the value it is asked to carry (encoding / decoding of Any is C03); the application leaf (object lookup, response) records ghost events",
     "commandable properties (priority array) are C17; COV monitors are absent from the object (C16)",
+    "ReadPropertyMultiple units: the object additionally has a propertyList property (an array of Unsigned instead of the enumeration PropertyIdentifier, whose first use initialises class tables -- outside the subset) and its optional CharacterString property is present or absent; requests of one specification with one reference of any kind, and of two specifications with two and one references",
 ]
 NOT_DECIDED = [
-    "ReadPropertyMultiple's 'all' / 'required' / 'optional' selectors and the embedding of errors per element (read_property_to_result_element and do_ReadPropertyMultipleRequest): the per-reference value is read_property_to_any, which is under contract",
+    "ReadPropertyMultiple requests with more than two specifications or more than two references per specification (structural bound of the two service units; the handler's loops treat every specification and reference alike)",
     "whole-array replacement over the wire (depends on Any.cast_out, C03) and list properties",
     "properties of constructed datatypes other than arrays",
 ]
@@ -28,6 +32,10 @@ EXPLANATION = ("ArrayOf: index 0 reads the length, 1..n the elements, anything e
                "(scalar, array element), a wrong-typed or missing value, a read-only property, an index on a scalar or a bad array index is refused with the matching error and "
                "every property is unchanged. Services: read_property_to_any (the ReadPropertyMultiple path) and do_ReadPropertyRequest hand Any the same typed value for every "
                "(property, index) -- the whole value, the length as Unsigned, the element as its datatype -- and raise the matching error otherwise; do_WritePropertyRequest "
-               "acknowledges exactly the writes that are stored (then read back) and raises, answering nothing and changing nothing, for the refused ones.")
+               "acknowledges exactly the writes that are stored (then read back) and raises, answering nothing and changing nothing, for the refused ones. ReadPropertyMultiple: "
+               "read_property_to_result_element never raises and embeds, per (object, property, index), the typed value ReadProperty answers or the error it refuses with "
+               "(unknown object / property, absent optional property, index on a scalar, index outside 0..n); do_ReadPropertyMultipleRequest answers exactly one ack with the "
+               "request's invoke ID whose result lists follow the request's order, expands 'all' / 'required' / 'optional' to the object's property table (without "
+               "propertyList, absent optional properties left out), answers the wildcard device instance under the device's identifier, and changes nothing.")
 LEVEL_TEXT = "Proof per function for all indexes (any integer), values and array contents over arrays of 0..3 elements."
 LEVEL_NOTE = "Trusted: pyvc (cross-checked against CPython every run), z3/cvc5, the Any stand-in. Bounded: array lengths."
